@@ -7,7 +7,8 @@ package agent
 // One real agent X with forward endpoints (agent.New from configuration) and a scripted ingress
 // connected directly. Bounded-exhaustive grid: endpoint sets x requested keys (exact, case
 // variants, prefixes/extensions, padded, empty, embedded NUL, "forward:" prefixed, traversal-like,
-// 255-byte) delivered as real STREAM_OPENs with `forward:<key>` domain addresses through the real
+// 255-byte, keys containing ':' -- a configured key followed or preceded by ":<more>", with and without
+// such a key being configured itself) delivered as real STREAM_OPENs with `forward:<key>` domain addresses through the real
 // processFrame; outbound dials go through the recording dial seam. Oracle: a dial happens iff the
 // requested key equals a configured key exactly, and then to exactly that key's target; otherwise
 // the answer is STREAM_OPEN_ERR with ErrForwardNotFound and nothing is dialed.
@@ -35,9 +36,17 @@ var c20Sets = []c20Set{
 	{"web+db", []config.ForwardEndpoint{{Key: "web", Target: "10.7.0.1:8001"}, {Key: "db", Target: "10.7.0.2:8002"}}},
 	{"Web+web", []config.ForwardEndpoint{{Key: "Web", Target: "10.7.0.3:8003"}, {Key: "web", Target: "10.7.0.1:8001"}}},
 	{"web+webx", []config.ForwardEndpoint{{Key: "web", Target: "10.7.0.1:8001"}, {Key: "webx", Target: "10.7.0.4:8004"}}},
+	// keys are arbitrary non-empty strings (configuration only refuses empty keys and exact duplicates): a key may
+	// itself contain the ':' that separates "forward" from the key in the stream address. A configured key that is
+	// the part before the colon of another configured key, and one that is the part after it.
+	{"db+db:replica", []config.ForwardEndpoint{{Key: "db", Target: "10.7.0.2:8002"}, {Key: "db:replica", Target: "10.7.0.5:8005"}}},
+	{"web+eu:web", []config.ForwardEndpoint{{Key: "web", Target: "10.7.0.1:8001"}, {Key: "eu:web", Target: "10.7.0.6:8006"}}},
 }
 
-var c20Keys = []string{"web", "db", "Web", "WEB", "we", "webx", "web2", " web", "web ", "", "web\x00", "web\x00db", "forward:web", "db/../web", "../web", "web/", "*", "w?b", strings.Repeat("k", 200)}
+var c20Keys = []string{"web", "db", "Web", "WEB", "we", "webx", "web2", " web", "web ", "", "web\x00", "web\x00db", "forward:web", "db/../web", "../web", "web/", "*", "w?b", strings.Repeat("k", 200),
+	// keys with ':' -- a configured key followed by ":<anything>" (unknown unless configured as such), the
+	// "forward:<key>:<port>" shape, a configured key after a colon, the colon first / last, two colons
+	"db:replica", "db:nosuch", "db:8002", "web:80", "web:", ":web", "eu:web", "us:web", "db:replica:1"}
 
 type c20Replay struct {
 	Set    string `json:"set"`
